@@ -25,10 +25,10 @@ Proof. intros H l. induction l as [|x l IH]; intros a; cbn; [reflexivity|]. rewr
 
 Theorem gen_analyse_paths_is_model : forall file_list root, gen_analyse_paths file_list root = analyse_paths file_list root.
 Proof.
-  intros fl root. unfold gen_analyse_paths, analyse_paths. rewrite ?Nat.add_0_r, ?Nat.add_0_l, ?Nat.sub_0_r.
+  intros fl root. unfold gen_analyse_paths, analyse_paths.
   change (map (fun fn => split_on "/"%char (join_path [fn])) fl) with (map parts_of fl).
   destruct root as [r|].
-  - change (split_on "/"%char (join_path [r])) with (parts_of r). cbv zeta.
+  - change (split_on "/"%char (join_path [r])) with (parts_of r). cbv zeta. rewrite ?Nat.add_0_r, ?Nat.add_0_l, ?Nat.sub_0_r.
     destruct (forallb _ (map parts_of fl)); reflexivity.
   - destruct (map parts_of fl) as [|p0 pl] eqn:E; [reflexivity|]. cbv zeta.
     assert (Hb : fold_left (fun (basepath path_parts : list str) =>
@@ -36,7 +36,7 @@ Proof.
                                          (combine basepath path_parts) 0 (length path_parts - 1)) basepath)
                  (p0 :: pl) (removelast p0) = base_of (p0 :: pl) p0).
     { unfold base_of. apply fold_left_ext_l. intros a b. unfold shrink. rewrite find_break_first_mismatch. reflexivity. }
-    rewrite Hb. reflexivity.
+    rewrite ?Nat.add_0_r, ?Nat.add_0_l, ?Nat.sub_0_r. rewrite Hb. reflexivity.
 Qed.
 
 (* C14_basepath on the regenerated text: without a root, for EVERY non-empty list of paths, the first component is the
